@@ -90,12 +90,12 @@ Definition cyc_lerp (tbl : list Qc) (x : Qc) : Qc :=
   let fr := x - zq i in
   cyc_get tbl i * (1 - fr) + cyc_get tbl (i + 1) * fr.
 
-(* oscillator: position of sample j is  len/(cycles*2*pi) * (phase_j + sum_{i<j} freq_i)  mod len *)
-Definition table_call_spec (tbl : list Qc) (cycles : Qc) (freq phase : arg) (k : nat) : res :=
-  let len := nq (length tbl) in
-  let cl := len / (cycles * (1 + 1) * pi_fl) in
-  let r := mc_spec (scale_arg cl phase) (Num len) (scale_arg cl freq) k in
+(* oscillator: position of sample j is  cl * (phase_j + sum_{i<j} freq_i)  mod len,  cl = len/(cycles*2*pi) *)
+Definition table_call_spec_cl (tbl : list Qc) (cl : Qc) (freq phase : arg) (k : nat) : res :=
+  let r := mc_spec (scale_arg cl phase) (Num (nq (length tbl))) (scale_arg cl freq) k in
   (map (cyc_lerp tbl) (fst r), snd r).
+Definition table_call_spec (tbl : list Qc) (cycles : Qc) (freq phase : arg) (k : nat) : res :=
+  table_call_spec_cl tbl (nq (length tbl) / (cycles * (1 + 1) * pi_fl)) freq phase k.
 
 (* harmonize: partial p contributes  amplitude * T_p[i mod |T_p|],  T_p[j] = table[j*(p+1)] *)
 Definition harm_sample (tbl : list Qc) (h : list (nat * Qc)) (i : nat) : Qc :=
